@@ -440,5 +440,25 @@ def r11_memo(chk: Check) -> None:
                          "MEMO-KEY(anchor modules of this property): credentials / overrides are looked up per provider, key and context: a cache keyed by less hands one context's token to another", floor=0)
 
 
+def r10_all_schemes_of_a_requirement(chk: Check) -> None:
+    chk.rule("C14.R10", "ALL-KEYS(security requirement objects): one requirement object names every scheme that is needed TOGETHER (`{apiKey: [], appId: []}`); get_security_requirements returns every key of every requirement (a nested comprehension / loop over the object's keys) - taking one key per object leaves the other credential parameters out of the operation, so no value (and no configured override) is ever sent for them", floor=1)
+    P = chk.project
+    fn = P.func("specs/openapi/security.py:BaseSecurityProcessor.get_security_requirements")
+    rets = simple_return_expr(fn)
+    verdict: bool | None = None
+    why = "return shape not recognised"
+    for r in rets:
+        if isinstance(r, (ast.ListComp, ast.GeneratorExp, ast.SetComp)):
+            gens = r.generators
+            if len(gens) == 2 and isinstance(gens[0].target, ast.Name) and gens[0].target.id in names_in(gens[1].iter) and isinstance(gens[1].target, ast.Name) and isinstance(r.elt, ast.Name) and r.elt.id == gens[1].target.id and not gens[1].ifs:
+                verdict = True
+            elif len(gens) == 1 and any(isinstance(c, ast.Call) and last_attr(c) in ("next", "min", "max", "pop", "popitem") for c in ast.walk(r.elt)) or (len(gens) == 1 and isinstance(r.elt, ast.Subscript)):
+                verdict = False
+                why = f"`{unparse(r, 80)}` takes ONE scheme name per requirement object: for `security: [{{apiKey: [], appId: []}}]` the second scheme's parameter is never added to the operation"
+        elif isinstance(r, ast.Call) and "chain" in (dotted(r.func) or ""):
+            verdict = True
+    chk.decide(verdict, "C14.R10", fn, "every scheme of every requirement object is returned", why, fn.loc())
+
+
 def rules(tier: str) -> list:  # type: ignore[type-arg]
-    return [r1_overrides, r2_network_config, r3_precedence, r4_set_on_case, r5_lock, r6_strip_auth, r7_merge, r8_sanitizer_on_copies, r9_dead_parameters, r10_override_presence, rfwd_forwarding, r11_memo]
+    return [r1_overrides, r2_network_config, r3_precedence, r4_set_on_case, r5_lock, r6_strip_auth, r7_merge, r8_sanitizer_on_copies, r9_dead_parameters, r10_override_presence, rfwd_forwarding, r11_memo, r10_all_schemes_of_a_requirement]
